@@ -2,18 +2,21 @@ use super::{Numeric, UnitSet};
 use crate::css::Value;
 
 pub struct ValueRange {
-    from: i64,
-    to: i64,
-    step: i64,
+    // Wider than the i64 limits, so the exclusive end of an inclusive
+    // range that ends at i64::MAX (or MIN) can be represented.
+    from: i128,
+    to: i128,
+    step: i128,
     unit: UnitSet,
 }
 
 impl ValueRange {
     pub fn new(from: i64, to: i64, inclusive: bool, unit: UnitSet) -> Self {
         let step = if to >= from { 1 } else { -1 };
+        let to = i128::from(to);
         let to = if inclusive { to + step } else { to };
         Self {
-            from,
+            from: from.into(),
             to,
             step,
             unit,
@@ -25,7 +28,8 @@ impl Iterator for ValueRange {
     type Item = Value;
     fn next(&mut self) -> Option<Value> {
         if self.from.partial_cmp(&self.to) == 0.partial_cmp(&self.step) {
-            let result = Numeric::new(self.from, self.unit.clone()).into();
+            let result =
+                Numeric::new(self.from as i64, self.unit.clone()).into();
             self.from += self.step;
             Some(result)
         } else {
